@@ -1263,7 +1263,65 @@ pub fn c09_two_releasable_at_once(rec: &mut Rec, rng: &mut Rng, k_clients: usize
     sim.w.teardown();
 }
 
+/// one batch: first the OUT event of a connection whose write FAILS, then the (repeated) hang-up of a connection that
+/// was closed earlier with a request in flight and has been answered since the last poll. Both are released by that
+/// poll, in whatever order the server looks at them — and the poll returns normally.
+/// (Order in the batch: A's readable event preceded D's hang-up in the previous poll, and epoll keeps that order.)
+pub fn c09_failed_write_before_stale_hangup(rec: &mut Rec, rng: &mut Rng) {
+    rec.case("failed-write-before-stale-hangup");
+    rec.nontrivial();
+    let mut cfg = Cfg::base("C09");
+    cfg.max_clients = 5;
+    let mut sim = Sim::new(rec, cfg);
+    let w = sim.connect(rec);
+    let a = sim.connect(rec);
+    let d = sim.connect(rec);
+    for _ in 0..4 {
+        sim.poll(rec);
+    }
+    // D has a request in flight
+    sim.send_next(rec, rng, d);
+    while !sim.plans[d].outq.is_empty() {
+        sim.send_next(rec, rng, d);
+    }
+    for _ in 0..3 {
+        sim.poll(rec);
+    }
+    // A sends, THEN D closes: one batch, A first
+    sim.send_next(rec, rng, a);
+    while !sim.plans[a].outq.is_empty() {
+        sim.send_next(rec, rng, a);
+    }
+    sim.w.close(rec, d);
+    sim.poll(rec);
+    // A will not read any more; both are answered before the next poll
+    sim.w.shutdown(rec, a, Shutdown::Read);
+    while let Some(k) = sim.w.held.iter().position(|h| h.client == Some(a) || h.client == Some(d)) {
+        sim.respond(rec, rng, k);
+    }
+    sim.poll(rec);
+    sim.poll(rec);
+    let conns = sim.w.server_fds().len().saturating_sub(2);
+    if conns != 1 && sim.w.held.is_empty() {
+        rec.oracle_fail("C09", &format!("a failed write and a stale hang-up in one batch, everything answered: the server holds {} connections, expected 1 (the witness)", conns), &sim.w.log);
+    }
+    // the witness is served
+    sim.send_next(rec, rng, w);
+    while !sim.plans[w].outq.is_empty() {
+        sim.send_next(rec, rng, w);
+    }
+    for _ in 0..3 {
+        sim.poll(rec);
+    }
+    sim.settle(rec, rng);
+    common_checks(rec, &mut sim, "C09");
+    sim.w.teardown();
+}
+
 pub fn c09(rec: &mut Rec, rng: &mut Rng, thorough: bool) {
+    for _ in 0..2 {
+        c09_failed_write_before_stale_hangup(rec, rng);
+    }
     for k in [2usize, 3] {
         c09_two_releasable_at_once(rec, rng, k);
     }
